@@ -14,7 +14,7 @@ RULE = ('models are generated as trees by the harness (recursive blocks, single-
         'once, parents before children / after with children_first, pruning by random should_follow), get_parent_of_type = '
         'nearest ancestor. distinct = (tree shape, class variant); non-trivial = depth >= 3 and >= 10 objects')
 REQUIRED = {'of_type_order_checks': 200, 'user_classes_used_by_an_earlier_metamodel': 50, 'models': 200, 'objects_checked': 3000, 'get_children_calls': 1000, 'falsy_objects': 50, 'pruned_traversals': 200,
-            'parent_of_type_calls': 1000, 'inner_roots': 200}
+            'parent_of_type_calls': 1000, 'inner_roots': 200, 'cycle_grammar_models': 100, 'cycle_grammar_of_type_calls': 5000}
 
 GRAMMARS = {
     'base': '''
@@ -157,7 +157,98 @@ Ref: 'ref' name=ID '->' target=[Item];
 '''
 
 
+CYCLE_GRAMMAR = '''
+Model: 'model' tops+=A (exprs+=E)*;
+A: 'a' name=ID ('[' b=B ']')? (t=T)?;
+B: 'b' name=ID ('<' a=A '>')? (u=U)? ('{' e=E '}')?;
+T: 't' name=ID;
+U: 'u' name=ID;
+E: P | V;
+P: '(' inner=I ')';
+I: 'i' name=ID e=E (t=T)?;
+V: 'v' name=ID;
+'''
+_cycle_mm = []
+
+
+def cycle_case(ctx, i, rep):
+    """Containment cycles through several classes (A -> B -> A, E -> P -> I -> E through an abstract rule): for every start
+    object and every class name, get_children_of_type is compared with a traversal written from the containment
+    attributes of the metamodel."""
+    from textx import metamodel_from_str, get_children_of_type, textx_isinstance
+    r = ctx.rng('cycle', i)
+    cnt = [0]
+
+    def nm():
+        cnt[0] += 1
+        return 'x%d' % cnt[0]
+
+    def gen_a(d):
+        s = 'a ' + nm()
+        if d < 5 and r.random() < 0.75:
+            s += ' [ ' + gen_b(d + 1) + ' ]'
+        if r.random() < 0.5:
+            s += ' t ' + nm()
+        return s
+
+    def gen_b(d):
+        s = 'b ' + nm()
+        if d < 5 and r.random() < 0.75:
+            s += ' < ' + gen_a(d + 1) + ' >'
+        if r.random() < 0.4:
+            s += ' u ' + nm()
+        if r.random() < 0.3:
+            s += ' { ' + gen_e(d + 1) + ' }'
+        return s
+
+    def gen_e(d):
+        if d < 6 and r.random() < 0.65:
+            return '( i ' + nm() + ' ' + gen_e(d + 1) + (' t ' + nm() if r.random() < 0.4 else '') + ' )'
+        return 'v ' + nm()
+    text = 'model ' + ' '.join(gen_a(0) for _ in range(r.randint(1, 3))) + ' ' + ' '.join(gen_e(0) for _ in range(r.randint(0, 2)))
+    if not _cycle_mm or r.random() < 0.2:
+        _cycle_mm[:] = [metamodel_from_str(CYCLE_GRAMMAR)]
+    mm = _cycle_mm[0]
+    m = mm.model_from_str(text)
+    ctx.count('cycle_grammar_models')
+
+    def kids(o):
+        out = []
+        for a in type(o)._tx_attrs.values():
+            if a.cont:
+                v = getattr(o, a.name)
+                for x in (v if isinstance(v, list) else [v]):
+                    if x is not None and hasattr(type(x), '_tx_attrs'):
+                        out.append(x)
+        return out
+
+    def below(o):
+        out = []
+        for k in kids(o):
+            out.append(k)
+            out.extend(below(k))
+        return out
+    everything = [m] + below(m)
+    ctx.case(('cycle', len(everything), text.count('[') + text.count('(')), len(everything) > 6,
+             {'grammar': CYCLE_GRAMMAR, 'model': text} if ctx.evaluations < 3 else None)
+    starts = everything if len(everything) <= 12 else [m] + r.sample(everything[1:], 11)
+    for start in starts:
+        sub = [start] + below(start)       # the start object itself is a candidate
+        for typ in ('A', 'B', 'T', 'U', 'E', 'P', 'I', 'V'):
+            for how in ('name', 'class'):
+                ctx.count('cycle_grammar_of_type_calls')
+                exp = [o for o in sub if type(o).__name__ == typ]      # the class itself: objects of sub-rules do not count
+                got = get_children_of_type(typ if how == 'name' else mm[typ], start)
+                if sorted(map(id, got)) != sorted(map(id, exp)):
+                    ctx.violation(None, 'get_children_of_type(%s, <%s %s>) returned %r, the objects of that type contained below it are %r' % (
+                        typ, type(start).__name__, getattr(start, 'name', ''), [getattr(o, 'name', '?') for o in got],
+                        [getattr(o, 'name', '?') for o in exp]), {'grammar': CYCLE_GRAMMAR, 'model': text}, rep)
+                    return
+
+
 def one(ctx, i, rep=None):
+    if i % 7 == 3:
+        return cycle_case(ctx, i, rep or {'i': i})
     from textx import (metamodel_from_str, get_children, get_children_of_type, get_model, get_parent_of_type, TextXError)
     rep = rep or {'i': i}
     r = ctx.rng('m', i)
